@@ -373,6 +373,14 @@ class G:
         target = self.place_expr(pl)
         ty = target.ty
         op = self.pick(["=", "=", "=", "+=", "-=", "*=", "/="])
+        if self.feat.get("chained_assign", True) and self.chance(7):
+            # the value of an assignment is itself an assignment, plain or compound:  a = b += e ;  a -= b *= e ;
+            inner = [p for p in self.scalar_places(ty, True) if p[0] == "var" and not (pl[0] == "var" and p[1] == pl[1])]
+            if inner:
+                p2 = self.pick(inner)
+                iop = self.pick(["=", "+=", "-=", "*="])
+                oop = self.pick(["=", "=", "+=", "-="])
+                return M.ExprStmt(M.Assign(target, oop, M.Assign(M.Var(p2[1], p2[2]), iop, self.rhs(ty, 1))))
         if op == "=":
             if self.chance(12):
                 vs = [p for p in self.scalar_places(ty, True) if p[0] == "var"]
